@@ -117,11 +117,34 @@ theorem oframe_icsRecv {s s' : St} {p b} (h : icsRecv s p b = some s') : OFrame 
       · exact (oframe_icsCredit hc).trans (oframe_chargeBridgingFee s1 p)
       · exact oframe_icsCredit hc
 
+theorem oframe_icsRefund {s s' : St} {p} (h : icsRefund s p = some s') : OFrame s s' := by
+  unfold icsRefund at h
+  split at h
+  · exact oframe_icsCredit h
+  · unfold fwdSettle at h
+    split at h
+    · cases h
+    · rename_i s1 h1
+      split at h
+      · cases h
+      · cases h
+        refine OFrame.trans ?_ (⟨rfl, rfl, rfl, rfl⟩ : OFrame s1 (writeAck s1 _ _ _))
+        split at h1
+        · cases h1; exact OFrame.refl s
+        · unfold fwdRefundFunds at h1
+          split at h1
+          · split at h1
+            · exact oframe_sendCoins h1
+            · split at h1
+              · cases h1
+              · cases h1; exact ⟨rfl, rfl, rfl, rfl⟩
+          · cases h1; exact ⟨rfl, rfl, rfl, rfl⟩
+
 theorem oframe_releaseEffect (s : St) (p : Packet) : OFrame s (releaseEffect s p).1 := by
   have hrefund : OFrame s (refundRelease s p).1 := by
     unfold refundRelease
     split
-    · rename_i s1 h; exact oframe_icsCredit h
+    · rename_i s1 h; exact oframe_icsRefund h
     · exact OFrame.refl s
   unfold releaseEffect
   split
@@ -139,7 +162,9 @@ theorem oframe_releaseEffect (s : St) (p : Packet) : OFrame s (releaseEffect s p
     exact h1.trans (h2 _ _)
   · split
     · exact hrefund
-    · exact OFrame.refl s
+    · unfold ackRelease; split
+      · exact OFrame.refl s
+      · exact hrefund
   · exact hrefund
   · exact OFrame.refl s
 
@@ -303,6 +328,7 @@ theorem inv05_eibcOnRecv {s s' : St} {p : Packet} {m : Memo} (h : Inv05 s) (hp :
           · split at hfee
             · cases hfee
             · rename_i f hf; cases hfee; exact Int.not_lt.mp hf
+          · cases hfee; exact Int.le_refl 0
         refine ⟨h2, hf, ?_⟩
         show price + fee + (if (p.ptype == PType.onRecv) = true then _ else 0) = p.amount
         simp only [hr, beq_self_eq_true, if_true]
@@ -324,33 +350,28 @@ theorem inv05_eibcOnRefund {s s' : St} {p : Packet} (h : Inv05 s) (hp : p ∈ s.
       simp only [hr, Bool.false_eq_true, if_false]
       omega
 
-theorem inv05_recvOpen {s : St} (c seq ph : Nat) (d : RecvData) (h : Inv05 s) : Inv05 (recvOpen s c seq ph d).1 := by
-  unfold recvOpen
+theorem inv05_recvAuth {s0 : St} (c seq ph : Nat) (d : RecvData) (h0 : Inv05 s0) : Inv05 (recvAuth s0 c seq ph d).1 := by
+  have hfail : Inv05 (recvFail s0 c seq).1 := h0
+  unfold recvAuth
   split
-  · exact h
-  · generalize hs0 : ({ s with receipts := s.receipts ++ [(c, seq)] } : St) = s0
-    have h0 : Inv05 s0 := by subst hs0; exact h
-    have hfail : Inv05 (recvFail s0 c seq).1 := h0
-    unfold recvAuth
-    split
+  · exact hfail
+  · split
     · exact hfail
     · split
       · exact hfail
       · split
-        · exact hfail
-        · split
-          · unfold recvPass
-            split
+        · unfold recvPass
+          split
+          · exact hfail
+          · rename_i s1 hi
+            exact Inv05.of_frame ((oframe_icsRecv hi).trans ⟨rfl, rfl, rfl, rfl⟩) h0
+        · unfold recvDelay
+          split
+          · exact hfail
+          · split
             · exact hfail
-            · rename_i s1 hi
-              exact Inv05.of_frame ((oframe_icsRecv hi).trans ⟨rfl, rfl, rfl, rfl⟩) h0
-          · unfold recvDelay
-            split
-            · exact hfail
-            · split
-              · exact hfail
-              · rename_i s2 he
-                exact inv05_eibcOnRecv (InvO.setPacket (inv05_addByAddr _ _ h0) _) (mem_setPacket.mpr (Or.inl rfl)) rfl rfl he
+            · rename_i s2 he
+              exact inv05_eibcOnRecv (InvO.setPacket (inv05_addByAddr _ _ h0) _) (mem_setPacket.mpr (Or.inl rfl)) rfl rfl he
 
 theorem inv05_ackOpen {s s' : St} {c seq ph : Nat} {isTimeout isErr : Bool} (h : Inv05 s)
     (ha : ackOpen s c seq ph isTimeout isErr = .ok (some s')) : Inv05 s' := by
@@ -372,7 +393,7 @@ theorem inv05_ackOpen {s s' : St} {c seq ph : Nat} {isTimeout isErr : Bool} (h :
             · cases ha
             · rename_i s1 hi
               cases ha
-              exact Inv05.of_frame ((oframe_icsCredit hi).trans ⟨rfl, rfl, rfl, rfl⟩) h0
+              exact Inv05.of_frame ((oframe_icsRefund hi).trans ⟨rfl, rfl, rfl, rfl⟩) h0
           · cases ha; exact Inv05.of_frame ⟨rfl, rfl, rfl, rfl⟩ h0
         · unfold ackDelay at ha
           split at ha
@@ -383,7 +404,7 @@ theorem inv05_ackOpen {s s' : St} {c seq ph : Nat} {isTimeout isErr : Bool} (h :
               · rename_i s2 he
                 cases ha
                 exact inv05_eibcOnRefund (InvO.setPacket (inv05_addByAddr _ _ h0) _) (mem_setPacket.mpr (Or.inl rfl)) rfl
-                  (by simp [mkSentPacket, sentType_ne_recv]) he
+                  (by simp [mkSentPacket, sentType_ne_recv]) (eibcRefundHandler_ok he)
             · cases ha
               exact InvO.setPacket (inv05_addByAddr _ _ h0) _
 
@@ -400,6 +421,36 @@ theorem inv05_sendOpen {s s' : St} {a c d amt} (h : Inv05 s) (hs : sendOpen s a 
           unfold recordSent lockCoins
           split <;> exact ⟨rfl, rfl, rfl, rfl⟩
         exact Inv05.of_frame this h
+
+
+theorem inv05_sendTransfer {s s' : St} {a c d amt} (h : Inv05 s) (hs : sendTransfer s a c d amt = .ok s') : Inv05 s' := by
+  unfold sendTransfer at hs; split at hs
+  · cases hs
+  · exact inv05_sendOpen h hs
+
+theorem inv05_recvForward {s0 : St} (c seq ph : Nat) (d : RecvData) (k : Nat) (h0 : Inv05 s0) :
+    Inv05 (recvForward s0 c seq ph d k).1 := by
+  have hfail : Inv05 (recvFail s0 c seq).1 := h0
+  unfold recvForward
+  have ha := inv05_recvAuth c seq ph { d with target := some (pfmAddr c), memo := .none } h0
+  split
+  · rename_i s1 hr
+    rw [hr] at ha
+    split
+    · rename_i s2 hs
+      have h1 : Inv05 { s1 with acks := s0.acks } := ha
+      exact (inv05_sendTransfer h1 hs : Inv05 s2)
+    · exact hfail
+  · exact hfail
+
+theorem inv05_recvOpen {s : St} (c seq ph : Nat) (d : RecvData) (h : Inv05 s) : Inv05 (recvOpen s c seq ph d).1 := by
+  unfold recvOpen
+  split
+  · exact h
+  · have h0 : Inv05 { s with receipts := s.receipts ++ [(c, seq)] } := h
+    split
+    · exact inv05_recvForward c seq ph d _ h0
+    · exact inv05_recvAuth c seq ph d h0
 
 theorem keysNodup_eq {s : St} {p q : Packet} (hk : KeysNodup s.packets) (hp : p ∈ s.packets) (hq : q ∈ s.packets)
     (h : pkey q = pkey p) : q = p := by
@@ -734,6 +785,11 @@ theorem inv_step_both {s : St} (o : Op) (h : Inv s) : Inv (step s o).1 := by
     · exact h5
   | chanClose c => exact (inv_ofM2 h (fun _ e => ⟨Inv04.of_frame (frame_setChanClosed e) h.1, Inv05.of_frame (oframe_setChanClosed e) h5⟩)).2
   | chanOpen c => exact (inv_ofM2 h (fun _ e => ⟨Inv04.of_frame (frame_setChanClosed e) h.1, Inv05.of_frame (oframe_setChanClosed e) h5⟩)).2
+  | timeoutOnClose c seq => exact (inv_ofM2 h (fun _ e => by unfold timeoutOnClose at e; split at e <;> cases e; exact ⟨h.1, h5⟩)).2
+  | sendBlk a c d amt =>
+    exact (inv_ofM2 h (fun _ e => by
+      obtain ⟨s1, hs, rfl⟩ := sendBlk_ok e
+      exact ⟨(inv_sendOpen h.1 hs : Inv04 s1), (inv05_sendOpen h5 hs : Inv05 s1)⟩)).2
   | finalize a rid ph t src seq => exact (inv_ofM2 h (fun _ e => ⟨inv_msgFinalize h.1 e, msgFinalize_inv05 h5 hk e⟩)).2
   | finalizeByKey a b => exact (inv_ofM2 h (fun _ e => ⟨inv_msgFinalizeByKey h.1 e, msgFinalizeByKey_inv05 h5 hk e⟩)).2
   | fulfill a id fee => exact (inv_ofM2 h (fun _ e => ⟨inv_msgFulfill h.1 e, inv05_msgFulfill h5 e⟩)).2
